@@ -219,7 +219,6 @@ Proof.
   cbn [sp_col].
   destruct (Z.eqb_spec (col + cpw b) col); [lia|].
   destruct (Z.geb_spec col (t_cols t)); [lia|].
-  destruct (Z.gtb_spec (col + cpw b) (t_cols t)); [lia|]. cbn [orb].
   rewrite slice_grapheme. reflexivity.
 Qed.
 
